@@ -200,6 +200,58 @@ func jobC14(c *rt.Ctx) {
 				map[string]interface{}{"stack_growth_bytes": depth, "delivered": ref.Hex(seed), "observed_key": ref.Hex(priv)})
 		}
 	}
+	// results are the caller's to OVERWRITE: a key returned by NewKeyFromSeed / GenerateKey is changed in
+	// place (public half flipped; wiped to zeros; overwritten with another key), then the same seed - and
+	// the seed the mutated bytes now spell - is derived again: always NewKeyFromSeed's value for the seed
+	// given (a cache that keeps the returned slice would hand the caller's edits back)
+	c.Require("result-overwritten")
+	for mut := 0; mut < 4; mut++ {
+		for api := 0; api < 2; api++ {
+			if !c.Take() {
+				continue
+			}
+			c.Class("result-overwritten")
+			c.Distinct(fmt.Sprintf("overwritten %d %d", mut, api), true)
+			seed := make([]byte, 32)
+			for i := range seed {
+				seed[i] = byte(i*3 + 7 + mut)
+			}
+			derive := func(sd []byte) PrivateKey {
+				if api == 0 {
+					return NewKeyFromSeed(append([]byte{}, sd...))
+				}
+				_, k, err := GenerateKey(bytes.NewReader(append([]byte{}, sd...)))
+				if err != nil {
+					return nil
+				}
+				return k
+			}
+			k1 := derive(seed)
+			other := stded.NewKeyFromSeed(bytes.Repeat([]byte{0x42}, 32))
+			switch mut {
+			case 0:
+				k1[40] ^= 0x10
+			case 1:
+				for i := range k1 {
+					k1[i] = 0
+				}
+			case 2:
+				copy(k1, other)
+			case 3:
+				k1[3] ^= 1 // the seed half
+			}
+			c.Step(3)
+			for ri, sd := range [][]byte{seed, append([]byte{}, k1[:32]...), make([]byte, 32)} {
+				got := derive(sd)
+				want := stded.NewKeyFromSeed(sd)
+				if !bytes.Equal(got, want) {
+					c.Violation("C14 result-overwritten", fmt.Sprintf("after the caller overwrote a returned key in place (mutation %d), deriving seed %x again (api %d, re-derivation %d) gives %x, NewKeyFromSeed's value is %x", mut, sd, api, ri, []byte(got), []byte(want)),
+						map[string]interface{}{"mutation": mut, "api": api, "seed": ref.Hex(sd)})
+					break
+				}
+			}
+		}
+	}
 	// held results: keys, Seed() and Public() values of 40 GenerateKey calls kept by the caller, each then
 	// used as the caller's own buffer; every other one still reads as it must
 	c.Require("held-results")
